@@ -70,7 +70,7 @@ def register(reg, tier="quick"):
                      name=f"integral_data[{tag}]", bounded=f"#integrals<={max_total}, #kernels per integral<=2",
                      mutants=[("id_sort = np.argsort(_ids)", "id_sort = list(range(len(_ids)))"),
                               ("names += [ir.integral_names[itg_type][i] for i in id_sort]",
-                               "names += ir.integral_names[itg_type]")] if tag == "2||||" else [])
+                               "names += ir.integral_names[itg_type]")] if tag == "1,1||||" else [])
         reg.add(c)
     # the tuple literal the loop iterates is the ufcx_integral_type enum order
     reg.finite_checks = getattr(reg, "finite_checks", [])
